@@ -199,6 +199,35 @@ CHECKS['C09'] = dict(
     technique="TLA+ exact statistics + witness-verified optimality certificates evaluated by TLC on recorded fits",
     ref="DESIGN.md section 5 C09")
 
+CHECKS['C11'] = dict(
+    text=("MC_ITML (TLC, exact rational arithmetic, dimension 1): the cyclic Bregman-projection machine keeps the duals "
+          ">= 0, keeps (K2) M^-1 - M0^-1 = sum y_i lambda_i v_i v_i^T and the slack relation after every projection, and "
+          "every fixed point satisfies complementary slackness - so the certificate characterises the algorithm. "
+          "Conformance: real ITML / ITML_Supervised fits over priors x gamma x bounds x budgets; duals and slack bounds "
+          "are read from the solver frame at return (no source change); TLC (TR_ITML) verifies the inverse / Cholesky "
+          "witnesses and evaluates SPD, dual feasibility, (K2), the slack relation, complementary slackness for converged "
+          "runs, and 'prior returned when it satisfies all bounds'."),
+    note=("Instances outside the precision of a floating-point certificate are counted, not judged (clause prefix X11): "
+          "a bound <= 2^-30 of a constraint vector's squared length (the documented 1e-9 replacement of a zero bound) or "
+          "max|M| max|M^-1| > 2^27. (K2) tolerance 2^-15 of the scale below 200 sweeps, 2^-7 beyond (drift of the "
+          "rank-one updates). gamma = inf is outside the stated quantifier."),
+    technique="TLA+ projection machine model-checked in exact rationals + KKT certificate evaluated by TLC on recorded fits",
+    ref="DESIGN.md section 5 C11")
+CHECKS['C14'] = dict(
+    text=("MC_MMC (TLC): the accept / reject cycle machine over abstract candidates - the kept iterate is feasible once "
+          "anything was accepted, its objective never decreases, it is never replaced by an infeasible or non-improving "
+          "candidate. Conformance: real MMC / MMC_Supervised fits with the kept and candidate matrix of every cycle "
+          "observed by wrapping _fD; TLC (TR_MMC) recomputes the similarity budget from the init option's matrix "
+          "exactly, decides feasibility and improvement of each candidate (witnessed square roots, 2^-30 ambiguity "
+          "window), replays the cycles through MMC!CycleStep and requires A_ to be the kept iterate, L^T L = A_ (PSD), "
+          "sum_S d^2 <= 1.01 t, iterations starting from the init matrix; diagonal variant: diagonal, non-negative, no "
+          "NaN, or ValueError."),
+    note=("The log of the objective is monotone, so improvement is decided on the sum of roots; candidates within 2^-30 "
+          "of the feasibility / improvement boundary follow the code. If the _fD probe cannot attach, the scheme clause "
+          "reports reduced coverage (X14), never a violation."),
+    technique="TLA+ cycle machine model-checked + recorded cycles replayed through the same step operator by TLC",
+    ref="DESIGN.md section 5 C14")
+
 NOT_YET = {}
 
 def main():
